@@ -712,6 +712,14 @@ def apply_transformation(F, step):
     name, targs = step[0], step[1:]
     if name == 'shuffle':
         random.seed(targs[0])
+        if len(targs) > 1:
+            # targs[1]: which of polarity flips / variable permutation / clause
+            # permutation are asked to stay 'fixed' (a subset of 'pvc')
+            kw = {}
+            for ch, opt in (('p', 'polarity_flips'), ('v', 'variables_permutation'),
+                            ('c', 'clauses_permutation')):
+                kw[opt] = 'fixed' if ch in targs[1] else 'shuffle'
+            return _t().Shuffle(F, **kw)
         return _t().Shuffle(F)
     return TDOC[name][1](F, targs)
 
@@ -752,9 +760,11 @@ def check_family_case(case, R=None):
             out.append(_viol('%s:%s' % (stage, s), w, case))
         if out:
             return out
+        earlier = []        # (stage, formula object, declared count, number of clauses)
         for step in chain:
             stage = 'T:%s' % step[0]
             n_in = F.number_of_variables()
+            earlier.append((stage, F, n_in, len(F)))
             try:
                 F = apply_transformation(F, step)
             except Exception as e:
@@ -770,6 +780,53 @@ def check_family_case(case, R=None):
                                  % (w, n_in, step), case))
             if out:
                 return out
+        if chain:
+            # the user goes on building on the result: what is created now is
+            # fresh for the result, and the formulas it was made from keep their
+            # own variables and clauses
+            n0 = F.number_of_variables()
+            try:
+                F.add_clause([n0 + 1, -(n0 + 2)])
+                v = F.new_variable()
+                blk = F.new_block(2)
+                ids = [v] + [blk(i) for i in (1, 2)]
+            except Exception as e:
+                return [_viol('%s:extend:exception:%s' % (stage, type(e).__name__),
+                              'extending the result raised %r' % (e,), case)]
+            _drain_monitor()
+            if ids != [n0 + 3, n0 + 4, n0 + 5] or F.number_of_variables() != n0 + 5:
+                out.append(_viol('%s:extend:ids' % stage,
+                                 'on the result with %d variables, a clause on %d,%d, then new_variable and '
+                                 'new_block(2) hand out %r and declare %d variables' %
+                                 (n0, n0 + 1, n0 + 2, ids, F.number_of_variables()), case))
+            for (st_, Fe, ne, me) in earlier:
+                mx = max([abs(l) for cl in Fe for l in cl] or [0])
+                if Fe.number_of_variables() != ne or len(Fe) != me or mx > ne:
+                    out.append(_viol('%s:extend:input-of-%s-changed' % (stage, st_.split(':', 1)[-1]),
+                                     'after extending the result, a formula the chain started from declares '
+                                     '%d variables (was %d), has %d clauses (was %d), largest literal %d' %
+                                     (Fe.number_of_variables(), ne, len(Fe), me, mx), case))
+            # ... and the other way round: extending what the chain started from
+            # leaves the result alone
+            if not out:
+                nr, mr = F.number_of_variables(), len(F)
+                for (st_, Fe, ne, me) in earlier:
+                    try:
+                        w = Fe.new_variable()
+                        Fe.add_clause([w])
+                    except Exception as e:
+                        return [_viol('%s:extend-input:exception:%s' % (stage, type(e).__name__),
+                                      'extending the input raised %r' % (e,), case)]
+                    if w != ne + 1:
+                        out.append(_viol('%s:extend-input:ids' % stage,
+                                         'new_variable on an input with %d variables returned %d' % (ne, w), case))
+                _drain_monitor()
+                mx = max([abs(l) for cl in F for l in cl] or [0])
+                if F.number_of_variables() != nr or len(F) != mr or mx > nr:
+                    out.append(_viol('%s:extend-input:result-changed' % stage,
+                                     'after extending the inputs, the result declares %d variables (was %d), '
+                                     'has %d clauses (was %d), largest literal %d' %
+                                     (F.number_of_variables(), nr, len(F), mr, mx), case))
     return out
 
 
@@ -1068,10 +1125,10 @@ def family_box(tier, seed):
     return out
 
 
-T_SMALL = [['flip'], ['shuffle', 3], ['or', 2], ['xor', 2], ['maj', 2], ['eq', 2], ['neq', 2],
+T_SMALL = [['flip'], ['shuffle', 3], ['shuffle', 4, 'pvc'], ['shuffle', 4, 'pc'], ['shuffle', 2, 'v'], ['or', 2], ['xor', 2], ['maj', 2], ['eq', 2], ['neq', 2],
            ['one', 2], ['atleast', 2, 1], ['atmost', 2, 1], ['exact', 2, 1], ['anybut', 2, 1],
            ['ite'], ['lift', 2], ['xorcomp', 3, 2], ['majcomp', 4, 3], ['or', 1], ['lift', 1]]
-T_BIG = [['flip'], ['shuffle', 5], ['or', 3], ['xor', 3], ['maj', 3], ['eq', 3], ['neq', 4],
+T_BIG = [['flip'], ['shuffle', 5]] + [['shuffle', 6, m] for m in ('pvc', 'pv', 'pc', 'vc', 'p', 'v', 'c', '')] + [['or', 3], ['xor', 3], ['maj', 3], ['eq', 3], ['neq', 4],
          ['one', 3], ['atleast', 3, 2], ['atmost', 4, 1], ['exact', 3, 1], ['anybut', 3, 2],
          ['exact', 2, 3], ['atleast', 3, 5], ['anybut', 2, 0],
          ['ite'], ['lift', 3], ['xorcomp', 5, 2], ['majcomp', 7, 3], ['xorcomp', 40, 3], ['maj', 4], ['xor', 1]]
